@@ -110,8 +110,12 @@ def main():
         traces = []
         for j in range(a.exact):
             tid += 1
-            kind = j % 6
-            if kind == 0:
+            kind = j % 7
+            if kind == 6:                           # mixed-sign singletons that cancel exactly (surplus = v(N), yet not zero-normalised)
+                v = D.random_sa_game_cancelling(n, rng)
+                if rng.random() < 0.3:              # additive variant
+                    v = [sum(v[2 ** i] for i in range(n) if c >> i & 1) for c in range(2 ** n)]
+            elif kind == 0:
                 v = D.random_sa_game(n, rng)
             elif kind == 1:
                 v = [x / 4 for x in D.random_sa_game(n, rng, sing=(-9, 9))]
